@@ -39,7 +39,7 @@ func (data CreateTokenData) basicCheck(tx *Transaction, context *state.CheckStat
 		}
 	}
 
-	if !checkAllowSymbol(data.Symbol.String()) {
+	if !checkAllowSymbol(data.Symbol) {
 		return &Response{
 			Code: code.InvalidCoinSymbol,
 			Log:  fmt.Sprintf("Invalid coin symbol. Should be %s and must contain characters", allowedCoinSymbols),
